@@ -291,6 +291,80 @@ def run(ctx) -> Report:
             else:
                 rep.violation("C08-shape/MixedPullback", f_shape, what, f"physical_value_shape gives {tuple(shp)}, push-forward has shape {want.shape}")
 
+    # ---- composite sub-elements: a mixed element whose sub-elements are themselves symmetric or mixed elements -------
+    # description of an element:  ("leaf", pullback class, mapped axes, block) | ("sym", symmetry map, sub-descriptions)
+    # | ("mixed", sub-descriptions)
+    def build_element(desc, gdim, tdim):
+        kind = desc[0]
+        if kind == "leaf":
+            _, cname, nmapped, blk = desc
+            return element(blk + (tdim,) * nmapped, pb_obj(cname))
+        if kind == "sym":
+            subs_ = [build_element(d, gdim, tdim) for d in desc[2]]
+            e = element((sum(x.attrs["reference_value_size"] for x in subs_),), None, subs_)
+            e.attrs["pullback"] = pb_obj("SymmetricPullback", e, dict(desc[1]))
+            return e
+        subs_ = [build_element(d, gdim, tdim) for d in desc[1]]
+        e = element((sum(x.attrs["reference_value_size"] for x in subs_),), None, subs_)
+        e.attrs["pullback"] = pb_obj("MixedPullback", e)
+        return e
+
+    def push_element(desc, el, rsub, gdim, tdim):
+        """flat list of the physical components of the element's push-forward of the reference values rsub (flat list)"""
+        kind = desc[0]
+        if kind == "leaf":
+            rs = el.attrs["reference_value_shape"]
+            comps = list(itertools.product(*[range(d) for d in rs]))
+            return flat(push(KINDS[desc[1]][0], T(rs, (), (), {(c, ()): rsub[k] for k, c in enumerate(comps)}), gdim, tdim))
+        pieces, off = [], 0
+        for d, e in zip(desc[2] if kind == "sym" else desc[1], el.attrs["sub_elements"]):
+            size = e.attrs["reference_value_size"]
+            pieces.append(push_element(d, e, rsub[off : off + size], gdim, tdim))
+            off += size
+        if kind == "mixed":
+            return [x for p_ in pieces for x in p_]
+        symm = desc[1]
+        block = tuple(i + 1 for i in max(symm.keys()))
+        out = []
+        for comp in itertools.product(*[range(d) for d in block]):
+            out.extend(pieces[symm[comp]])
+        return out
+
+    P1, P1V, RT = ("leaf", "IdentityPullback", 0, ()), ("leaf", "IdentityPullback", 0, (2,)), ("leaf", "ContravariantPiola", 1, ())
+    swapped = ("sym", {(0,): 1, (1,): 0}, [P1, P1])
+    colmajor = ("sym", {(0, 0): 0, (1, 0): 1, (0, 1): 2, (1, 1): 3}, [P1, P1, P1, P1])
+    symmetric = ("sym", {(0, 0): 0, (0, 1): 1, (1, 0): 1, (1, 1): 2}, [P1, P1, P1])
+    composite = [
+        ("Mixed[swapped 2-vector (fields 1, 0), P1]", ("mixed", [swapped, P1])),
+        ("Mixed[P1^2, swapped 2-vector]", ("mixed", [P1V, swapped])),
+        ("Mixed[full 2x2 tensor numbered column by column, P1]", ("mixed", [colmajor, P1])),
+        ("Mixed[symmetric 2x2 tensor, P1]", ("mixed", [symmetric, P1])),
+        ("Mixed[Mixed[full 2x2 column-major, P1], RT]", ("mixed", [("mixed", [colmajor, P1]), RT])),
+        ("Mixed[Mixed[RT, P1], swapped 2-vector]", ("mixed", [("mixed", [RT, P1]), swapped])),
+    ]
+    for gdim, tdim in [(2, 2), (3, 2)]:
+        for cname_, desc in composite:
+            dom = make_domain(gdim, tdim)
+            ip = new_interp(dom)
+            ip.isinstance_hook = lambda x, cls: (True if isinstance(x, Obj) and x.kind == "element" and not isinstance(cls, tuple) and getattr(cls, "name", "") != "MeshSequence" else isinstance_hook(x, cls))
+            el = build_element(desc, gdim, tdim)
+            pb = el.attrs["pullback"]
+            total = el.attrs["reference_value_size"]
+            r = T.symbolic("r", (total,))
+            what = f"{cname_}: MixedPullback.apply gdim={gdim} tdim={tdim}"
+            want_flat = push_element(desc, el, [r.get((k,)) for k in range(total)], gdim, tdim)
+            want = T((len(want_flat),), (), (), {((k,), ()): v for k, v in enumerate(want_flat)})
+            try:
+                got = uflsem.as_T(ip.call_function(f_apply, [r], {}, self_obj=pb))
+            except LiftRaise as e:
+                rep.violation("C08-mixed/composite", f_apply, what, f"{what}: lifted apply raises {e.what}")
+                continue
+            ok, how, wit = equal_T(got, want, rng=ctx.rng)
+            if ok:
+                rep.ok("C08-mixed/composite", f_apply, f"{what}: every sub-element pushed forward by its own (composite) pull back ({how})")
+            else:
+                rep.violation("C08-mixed/composite", f_apply, what, f"{what} differs from the concatenation of the sub-elements' push-forwards ({how}): {wit}", witness=wit)
+
     # ---- mixed element on a sequence of component meshes (one mesh, hence one geometry, per sub-element) ---------
     MS = prog.get_class("ufl.domain.MeshSequence")
 
